@@ -14,6 +14,22 @@ from .core import Unsupported, Crash, tb, eng, SymInt
 from .abuf import ABuf
 
 
+def listing_orders(n):
+    """Candidate enumeration orders of a directory with n entries: every
+    permutation up to four entries; beyond that sorted, reversed and every
+    rotation of both (stated bound)."""
+    if n <= 4:
+        return list(itertools.permutations(range(n)))
+    base = list(range(n))
+    perms = []
+    for b in (base, base[::-1]):
+        for r in range(n):
+            p = tuple(b[r:] + b[:r])
+            if p not in perms:
+                perms.append(p)
+    return perms
+
+
 class Node:
     __slots__ = ("content",)
 
@@ -158,9 +174,7 @@ class AFS:
             return names[::-1]
         key = (r, tuple(names))
         if key not in self._perm:
-            perms = list(itertools.permutations(range(len(names))))
-            if len(perms) > 24:
-                raise Unsupported("symbolic listing of %d entries" % len(names))
+            perms = listing_orders(len(names))
             k = eng().choice("perm%s:%s:%d" % (self.tag, r, len(self._perm)), len(perms))
             self._perm[key] = perms[k]
         return [names[i] for i in self._perm[key]]
